@@ -11,8 +11,10 @@ theorem redial_zero (s : St) : redial 0 s = { s with dead := true } := rfl
 
 theorem redial_succ (n : Nat) (s : St) : redial (n+1) s =
     match s.script with
-    | [] => { s with script := [], dials := s.dials ++ [true], inc := s.inc + 1, failW := false }
-    | .ok :: r => { s with script := r, dials := s.dials ++ [true], inc := s.inc + 1, failW := false }
+    | [] => { s with script := [], dials := s.dials ++ [true], inc := s.inc + 1,
+                     failW := decide (0 < s.bornFailing), bornFailing := s.bornFailing - 1 }
+    | .ok :: r => { s with script := r, dials := s.dials ++ [true], inc := s.inc + 1,
+                           failW := decide (0 < s.bornFailing), bornFailing := s.bornFailing - 1 }
     | _ :: r => redial n { s with script := r, dials := s.dials ++ [true] } := by
   rcases h : s.script with _ | ⟨o, r⟩
   · simp [redial, h]
@@ -38,6 +40,33 @@ theorem redial_logs (n : Nat) (s : St) : (redial n s).logs = s.logs := (redial_f
 theorem redial_rq (n : Nat) (s : St) : (redial n s).rq = s.rq := (redial_frame n s).2.1
 theorem redial_closed (n : Nat) (s : St) : (redial n s).closed = s.closed := (redial_frame n s).2.2.1
 theorem redial_inc_le (n : Nat) (s : St) : s.inc ≤ (redial n s).inc := (redial_frame n s).2.2.2.2.1
+
+/-- a redial that does not exhaust the budget opens exactly one new incarnation; it is born with failing writes iff the
+    adversary still had spoilt incarnations in stock, and one of them is used up -/
+theorem redial_alive (n : Nat) : ∀ s : St, ¬ (redial n s).dead = true →
+    (redial n s).inc = s.inc + 1 ∧ (redial n s).failW = decide (0 < s.bornFailing) ∧
+    (redial n s).bornFailing = s.bornFailing - 1 := by
+  induction n with
+  | zero => intro s h; simp [redial_zero] at h
+  | succ n ih =>
+    intro s
+    rw [redial_succ]
+    split
+    · intro _; exact ⟨rfl, rfl, rfl⟩
+    · intro _; exact ⟨rfl, rfl, rfl⟩
+    · intro h
+      have := ih { s with script := ‹List Dial›, dials := s.dials ++ [true] } h
+      simpa using this
+
+/-- with an empty script and a positive budget the first attempt succeeds -/
+theorem reconnect_nil (s : St) (hs : s.script = []) (hb : 0 < s.budget) :
+    reconnect s = { s with script := [], dials := s.dials ++ [true], inc := s.inc + 1,
+                           failW := decide (0 < s.bornFailing), bornFailing := s.bornFailing - 1 } := by
+  obtain ⟨n, hn⟩ : ∃ n, s.budget = n + 1 := ⟨s.budget - 1, by omega⟩
+  have h := redial_succ n s
+  rw [hs] at h
+  rw [show reconnect s = redial (n + 1) s from by rw [reconnect, hn]]
+  exact h
 
 theorem reconnect_rq (s : St) : (reconnect s).rq = s.rq := redial_rq _ _
 
@@ -157,17 +186,105 @@ theorem allLogged_logTo (s : St) (bs : Bytes) (hinv : LogsInv s) :
 theorem write_dead (s : St) (h : s.closed = true ∨ s.dead = true) (bs : Bytes) : write s bs = (s, .err) := by
   simp [write, h]
 
+theorem writeLoop_zero (s : St) (bs : Bytes) : writeLoop 0 s bs = (s, .err) := rfl
+
+theorem writeLoop_succ (n : Nat) (s : St) (bs : Bytes) : writeLoop (n + 1) s bs =
+    if s.failW = true then
+      (if (reconnect s).dead = true then (reconnect s, .err) else writeLoop n (reconnect s) bs)
+    else (logTo s bs, .wrote s.inc) := rfl
+
+theorem write_alive (s : St) (bs : Bytes) (h1 : ¬ (s.closed = true ∨ s.dead = true)) :
+    write s bs = writeLoop (s.bornFailing + 2) s bs := by
+  unfold write; rw [if_neg h1]
+
 theorem write_live (s : St) (bs : Bytes) (h1 : ¬ (s.closed = true ∨ s.dead = true)) (h2 : ¬ s.failW = true) :
     write s bs = (logTo s bs, .wrote s.inc) := by
-  unfold write; rw [if_neg h1, if_neg h2]
+  rw [write_alive s bs h1, writeLoop_succ, if_neg h2]
 
-theorem write_redial_dead (s : St) (bs : Bytes) (h1 : ¬ (s.closed = true ∨ s.dead = true)) (h2 : s.failW = true)
-    (h3 : (reconnect s).dead = true) : write s bs = (reconnect s, .err) := by
-  unfold write; rw [if_neg h1, if_pos h2]; exact if_pos h3
+/-- WRITE LOOP: with enough fuel (`bornFailing + 2` if the current incarnation's writes fail, 1 otherwise) the loop ends in
+    a state `s'` reached from `s` by redials only (logs, read queue, Close flag untouched; only reconnect dials added), and
+    either `s'` is dead and the request fails, or `s'` accepts writes and the request is logged — once — on `s'.inc` -/
+theorem writeLoop_spec (bs : Bytes) (n : Nat) : ∀ s : St, 0 < n → (s.failW = true → s.bornFailing + 2 ≤ n) →
+    ∃ s' : St, s'.logs = s.logs ∧ s.inc ≤ s'.inc ∧ s'.rq = s.rq ∧ s'.closed = s.closed ∧
+      (∃ k, s'.dials = s.dials ++ List.replicate k true) ∧
+      ((writeLoop n s bs = (s', .err) ∧ s'.dead = true) ∨
+       (writeLoop n s bs = (logTo s' bs, .wrote s'.inc) ∧ s'.failW = false)) := by
+  induction n with
+  | zero => intro s h; omega
+  | succ n ih =>
+    intro s _ hf
+    rw [writeLoop_succ]
+    by_cases h : s.failW = true
+    · rw [if_pos h]
+      have hfr := redial_frame s.budget s
+      have hdl := redial_dials s.budget s
+      by_cases hd : (reconnect s).dead = true
+      · rw [if_pos hd]
+        exact ⟨reconnect s, hfr.1, hfr.2.2.2.2.1, hfr.2.1, hfr.2.2.1, hdl, .inl ⟨rfl, hd⟩⟩
+      · rw [if_neg hd]
+        obtain ⟨_, ha2, ha3⟩ := redial_alive s.budget s hd
+        have hf0 := hf h
+        have hf' : (reconnect s).failW = true → (reconnect s).bornFailing + 2 ≤ n := by
+          intro hw
+          have hw' : decide (0 < s.bornFailing) = true := ha2 ▸ hw
+          have hpos : 0 < s.bornFailing := of_decide_eq_true hw'
+          have hb : (reconnect s).bornFailing = s.bornFailing - 1 := ha3
+          omega
+        obtain ⟨s', g1, g2, g3, g4, ⟨k, g5⟩, g6⟩ := ih (reconnect s) (by omega) hf'
+        obtain ⟨j, hj⟩ := hdl
+        refine ⟨s', g1.trans hfr.1, Nat.le_trans hfr.2.2.2.2.1 g2, g3.trans hfr.2.1, g4.trans hfr.2.2.1,
+          ⟨j + k, ?_⟩, g6⟩
+        rw [g5]
+        show (reconnect s).dials ++ _ = _
+        rw [show (reconnect s).dials = _ from hj, List.append_assoc, List.replicate_append_replicate]
+    · rw [if_neg h]
+      exact ⟨s, rfl, Nat.le_refl _, rfl, rfl, ⟨0, by simp⟩, .inr ⟨rfl, by simpa using h⟩⟩
 
-theorem write_redial_ok (s : St) (bs : Bytes) (h1 : ¬ (s.closed = true ∨ s.dead = true)) (h2 : s.failW = true)
-    (h3 : ¬ (reconnect s).dead = true) : write s bs = (logTo (reconnect s) bs, .wrote (reconnect s).inc) := by
-  unfold write; rw [if_neg h1, if_pos h2]; exact if_neg h3
+/-- REPEATED FAILURES: if every redial attempt succeeds (empty script, positive budget) and the adversary spoils the next
+    `k` incarnations, the loop redials `k + 1` times and serves the request on incarnation `inc + k + 1` -/
+theorem writeLoop_repeated (bs : Bytes) (k : Nat) : ∀ (n : Nat) (s : St), s.failW = true → s.bornFailing = k →
+    s.script = [] → 0 < s.budget → ¬ s.dead = true → k + 2 ≤ n →
+    ∃ s' : St, writeLoop n s bs = (logTo s' bs, .wrote s'.inc) ∧ s'.inc = s.inc + k + 1 ∧ s'.bornFailing = 0 ∧
+      s'.failW = false ∧ s'.logs = s.logs ∧ s'.dials = s.dials ++ List.replicate (k + 1) true := by
+  induction k with
+  | zero =>
+    intro n s hf hk hs hb hd hn
+    obtain ⟨m, rfl⟩ : ∃ m, n = m + 2 := ⟨n - 2, by omega⟩
+    have hR := reconnect_nil s hs hb
+    have hRd : ¬ (reconnect s).dead = true := by rw [hR]; exact hd
+    have hRf : ¬ (reconnect s).failW = true := by rw [hR]; simp [hk]
+    rw [writeLoop_succ, if_pos hf, if_neg hRd, writeLoop_succ, if_neg hRf]
+    refine ⟨reconnect s, rfl, ?_, ?_, ?_, ?_, ?_⟩ <;> rw [hR] <;> simp [hk]
+  | succ k ih =>
+    intro n s hf hk hs hb hd hn
+    obtain ⟨m, rfl⟩ : ∃ m, n = m + 1 := ⟨n - 1, by omega⟩
+    have hR := reconnect_nil s hs hb
+    have hRd : ¬ (reconnect s).dead = true := by rw [hR]; exact hd
+    rw [writeLoop_succ, if_pos hf, if_neg hRd]
+    obtain ⟨s', g1, g2, g3, g4, g5, g6⟩ := ih m (reconnect s) (by rw [hR]; simp [hk]) (by rw [hR]; simp [hk])
+      (by rw [hR]) (by rw [hR]; exact hb) hRd (by omega)
+    refine ⟨s', g1, ?_, g3, g4, ?_, ?_⟩
+    · rw [g2, hR]; simp only []; omega
+    · rw [g5, hR]
+    · rw [g6, hR]; simp [List.replicate_succ]
+
+/-- WRITE: the state `s'` in which the request is finally served or given up -/
+theorem write_cases (s : St) (bs : Bytes) :
+    ∃ s' : St, s'.logs = s.logs ∧ s.inc ≤ s'.inc ∧ s'.rq = s.rq ∧ s'.closed = s.closed ∧
+      (∃ k, s'.dials = s.dials ++ List.replicate k true) ∧
+      ((write s bs = (s', .err) ∧ (s.closed = true ∨ s.dead = true ∨ s'.dead = true)) ∨
+       (write s bs = (logTo s' bs, .wrote s'.inc) ∧ s'.failW = false)) := by
+  by_cases h1 : s.closed = true ∨ s.dead = true
+  · refine ⟨s, rfl, Nat.le_refl _, rfl, rfl, ⟨0, by simp⟩, .inl ⟨write_dead s h1 bs, ?_⟩⟩
+    rcases h1 with h | h
+    · exact .inl h
+    · exact .inr (.inl h)
+  · rw [write_alive s bs h1]
+    obtain ⟨s', g1, g2, g3, g4, g5, g6⟩ := writeLoop_spec bs (s.bornFailing + 2) s (by omega) (fun _ => Nat.le_refl _)
+    refine ⟨s', g1, g2, g3, g4, g5, ?_⟩
+    rcases g6 with ⟨h, hd⟩ | h
+    · exact .inl ⟨h, .inr (.inr hd)⟩
+    · exact .inr h
 
 theorem deliver_ping (s : St) (h1 : ¬ (s.closed = true ∨ s.dead = true)) : deliver s pingMsg = write s pongMsg := by
   unfold deliver; rw [if_neg h1, if_pos rfl]
@@ -177,18 +294,13 @@ theorem write_spec (s : St) (bs : Bytes) (hinv : LogsInv s) :
     LogsInv (write s bs).1 ∧
     ((∃ i, (write s bs).2 = .wrote i ∧ allLogged (write s bs).1 = allLogged s ++ [bs]) ∨
      ((write s bs).2 = .err ∧ allLogged (write s bs).1 = allLogged s)) := by
-  unfold write
-  split
-  · exact ⟨hinv, .inr ⟨rfl, rfl⟩⟩
-  · split
-    · have hr : allLogged (reconnect s) = allLogged s ∧ LogsInv (reconnect s) := allLogged_redial s.budget s hinv
-      by_cases hdd : (reconnect s).dead = true
-      · rw [if_pos hdd]; exact ⟨hr.2, .inr ⟨rfl, hr.1⟩⟩
-      · rw [if_neg hdd]
-        have hl := allLogged_logTo (reconnect s) bs hr.2
-        exact ⟨hl.2, .inl ⟨_, rfl, by rw [hl.1, hr.1]⟩⟩
-    · have hl := allLogged_logTo s bs hinv
-      exact ⟨hl.2, .inl ⟨_, rfl, hl.1⟩⟩
+  obtain ⟨s', g1, g2, _, _, _, g6⟩ := write_cases s bs
+  have hr : allLogged s' = allLogged s ∧ LogsInv s' := allLogged_of_logs_eq s s' g1 g2 hinv
+  rcases g6 with ⟨h, _⟩ | ⟨h, _⟩
+  · rw [h]; exact ⟨hr.2, .inr ⟨rfl, hr.1⟩⟩
+  · rw [h]
+    have hl := allLogged_logTo s' bs hr.2
+    exact ⟨hl.2, .inl ⟨_, rfl, by rw [hl.1, hr.1]⟩⟩
 
 /-- one step of `accepted` -/
 def acc1 : Ev → Out → List Bytes
@@ -236,6 +348,7 @@ theorem step_logged (s : St) (e : Ev) (hinv : LogsInv s) :
       · exact ⟨hinv, by simp [acc1]⟩
       · exact ⟨hinv, by simp [acc1, allLogged]⟩
   | close => exact ⟨hinv, by simp [step, acc1, allLogged, close]⟩
+  | bornFailing k => exact ⟨hinv, by simp [step, acc1, allLogged]⟩
 
 theorem run_nil (s : St) : run s [] = (s, []) := rfl
 
@@ -269,14 +382,8 @@ theorem step_dials (s : St) (e : Ev) : ∃ k, (step s e).1.dials = s.dials ++ Li
   have h0 : ∃ k, s.dials = s.dials ++ List.replicate k true := ⟨0, by simp⟩
   have hw : ∀ bs, ∃ k, (write s bs).1.dials = s.dials ++ List.replicate k true := by
     intro bs
-    unfold write
-    split
-    · exact h0
-    · split
-      · by_cases hdd : (reconnect s).dead = true
-        · rw [if_pos hdd]; exact hr
-        · rw [if_neg hdd]; exact hr
-      · exact h0
+    obtain ⟨s', _, _, _, _, g5, g6⟩ := write_cases s bs
+    rcases g6 with ⟨h, _⟩ | ⟨h, _⟩ <;> (rw [h]; exact g5)
   cases e with
   | write bs => exact hw bs
   | failW => exact h0
@@ -301,6 +408,7 @@ theorem step_dials (s : St) (e : Ev) : ∃ k, (step s e).1.dials = s.dials ++ Li
     · exact h0
     · split <;> exact h0
   | close => exact h0
+  | bornFailing k => exact h0
 
 theorem run_dials (evs : List Ev) : ∀ s : St, ∃ k, (run s evs).1.dials = s.dials ++ List.replicate k true := by
   induction evs with
@@ -324,14 +432,8 @@ def del1 : Ev → Out → List Bytes
   | _, _ => []
 
 theorem write_rq (s : St) (bs : Bytes) : (write s bs).1.rq = s.rq ∧ rd1 (write s bs).2 = [] := by
-  unfold write
-  split
-  · exact ⟨rfl, rfl⟩
-  · split
-    · by_cases hdd : (reconnect s).dead = true
-      · rw [if_pos hdd]; exact ⟨reconnect_rq _, rfl⟩
-      · rw [if_neg hdd]; exact ⟨reconnect_rq _, rfl⟩
-    · exact ⟨rfl, rfl⟩
+  obtain ⟨s', _, _, g3, _, _, g6⟩ := write_cases s bs
+  rcases g6 with ⟨h, _⟩ | ⟨h, _⟩ <;> (rw [h]; exact ⟨g3, rfl⟩)
 
 theorem step_reads (s : St) (e : Ev) (hc : ¬ s.closed = true) (hd : ¬ s.dead = true) :
     rd1 (step s e).2 ++ (step s e).1.rq = s.rq ++ del1 e (step s e).2 := by
@@ -366,5 +468,6 @@ theorem step_reads (s : St) (e : Ev) (hc : ¬ s.closed = true) (hd : ¬ s.dead =
       · next h => simp [rd1, del1, h]
       · next h => simp [rd1, del1, h]
   | close => simp [step, rd1, del1, close]
+  | bornFailing k => simp [step, rd1, del1]
 
 end Iscp.Rec
